@@ -511,7 +511,6 @@ func c07Setup(c *Ctx, fns []*ssa.Function) {
 	}
 }
 
-
 // c07FreshTarget decides O7.6 over every JSON decode call of the ammo
 // provider packages.
 func c07FreshTarget(c *Ctx) {
